@@ -80,13 +80,14 @@ trait LtT {
 fn real_ref2(u: &impl RefT, p0: u32, p1: u32) -> u32 { see(format!("real_ref2({p0},{p1})")); 1000 + p0 * 10 + p1 + u.r_req(p0, p1) }
 fn real_ref3(p2: &mut u32, _u: &impl RefT, p0: u32) -> u32 { see(format!("real_ref3({p2},{p0})")); *p2 += 1; 2000 + p0 }
 
-#[unimock(api=MutMock, unmock_with=[real_mut2, _, _])]
+#[unimock(api=MutMock, unmock_with=[real_mut2, real_mut4(p2, self, p0), _])]
 trait MutT {
     fn mu_m2(&mut self, p0: u32, p1: u32) -> u32;
     fn mu_m4(&mut self, p0: u32, p1: u32, p2: &mut u32, p3: u32) -> u32;
     fn mu_prov(&mut self, p0: u32, p1: u32) -> u32 { see(format!("prov({p0},{p1})")); self.mu_m2(p1, p0) + 1 }
 }
 fn real_mut2(_u: &mut impl MutT, p0: u32, p1: u32) -> u32 { see(format!("real_mut2({p0},{p1})")); 1000 + p0 * 10 + p1 }
+fn real_mut4(p2: &mut u32, u: &mut impl MutT, p0: u32) -> u32 { see(format!("real_mut4({p2},{p0})")); *p2 += 1; 2000 + u.mu_m2(p0, 1) }
 
 #[unimock(api=OwnMock)]
 trait OwnT {
@@ -114,12 +115,14 @@ trait ArcT {
     fn ar_prov3(self: Arc<Self>, p0: u32, p1: u32) -> u32 { see(format!("prov3({p0},{p1})")); let x = self.clone().ar_m2(p0, p1); self.ar_m2(x, p0) + 1 }
 }
 
-#[unimock(api=PinMock)]
+#[unimock(api=PinMock, unmock_with=[_, real_pin2, _])]
 trait PinT {
     fn pi_req(&self, p0: u32, p1: u32) -> u32;
     fn pi_m2(self: Pin<&mut Self>, p0: u32, p1: u32) -> u32;
     fn pi_prov(self: Pin<&mut Self>, p0: u32, p1: u32) -> u32 { see(format!("prov({p0},{p1})")); self.pi_req(p1, p0) + 1 }
 }
+
+fn real_pin2(u: Pin<&mut impl PinT>, p0: u32, p1: u32) -> u32 { see(format!("real_pin2({p0},{p1})")); 3000 + u.pi_req(p0, p1) }
 
 #[unimock(api=AsyncMock, unmock_with=[real_async2, _])]
 trait AsyncT {
@@ -344,6 +347,27 @@ fn main() {
         let r = u.mu_m2(3, 7);
         let s = seen();
         check("mut.unmock.path", r == 1037 && s == ["real_mut2(3,7)"], format!("ret={r} seen={s:?}"));
+    });
+    run_case("mut.unmock.listed", || {
+        let mut u = Unimock::new_partial(());
+        let mut z = 40;
+        let r = u.mu_m4(9, 0, &mut z, 0);
+        let s = seen();
+        check("mut.unmock.listed", r == 3091 && z == 41 && s == ["real_mut4(40,9)", "real_mut2(9,1)"], format!("ret={r} z={z} seen={s:?}"));
+    });
+    run_case("mut.unmock.explicit+none-registered", || {
+        let mut u = Unimock::new((MutMock::mu_m2.next_call(matching!(1, 2)).applies_unmocked(), MutMock::mu_prov.next_call(matching!(_, _)).applies_unmocked())).no_verify_in_drop();
+        let r = u.mu_m2(1, 2);
+        let s = seen();
+        let e = std::panic::catch_unwind(std::panic::AssertUnwindSafe(|| u.mu_prov(1, 2)));
+        let msg = match &e { Ok(v) => format!("returned {v}"), Err(p) => p.downcast_ref::<String>().cloned().unwrap_or_default() };
+        check("mut.unmock.explicit+none-registered", r == 1012 && s == ["real_mut2(1,2)"] && msg.contains("MutT::mu_prov cannot be unmocked"), format!("ret={r} seen={s:?} msg={msg:?}"));
+    });
+    run_case("pin.unmock.path", || {
+        let mut u = Unimock::new_partial(PinMock::pi_req.each_call(matching!(_, _)).answers(&|_, a, b| { see(format!("req({a},{b})")); a * 10 + b }));
+        let r = Pin::new(&mut u).pi_m2(3, 7);
+        let s = seen();
+        check("pin.unmock.path", r == 3037 && s == ["real_pin2(3,7)", "req(3,7)"], format!("ret={r} seen={s:?}"));
     });
     // --- by value, Rc, Arc, Pin
     run_case("own.m2+default", || {
